@@ -151,6 +151,9 @@ func runXform(c xformCase) tr.Ev {
 	orig := append([]byte(nil), src...)
 	mk := func() (kanzi.ByteTransform, map[string]any, error) {
 		ctx := baseCtx(c.Entropy, c.Jobs, c.Size)
+		if c.Shape == "wordlist" {
+			ctx["blockSize"] = uint(8 << 20) // the block size the stream layer would declare (it sizes the dictionaries)
+		}
 		if c.Hint >= 0 {
 			// only a data type that a real earlier stage derives from this very block may be in the context: transforms trust it
 			// (UTF skips its validation when the type says UTF-8), so an arbitrary value would break their precondition
@@ -349,6 +352,16 @@ func cmdXform(args []string) int {
 		if *thorough || bi == 0 {
 			cases = append(cases, xformCase{ID: id, T: []string{"BWT", "BWTS"}[bi], Shape: "text", Size: 9<<20 + 4096*int(j), Seed: *seed*1009 + int64(id), Hint: -1, Entropy: "NONE", Jobs: j})
 			id++
+		}
+	}
+	// dictionaries of the text transform: several hundred thousand distinct words in one block, both variants of the transform
+	// (the variant is selected by the entropy codec in the context; the size of the dictionary by the block size)
+	for wi, sz := range []int{5600000, 4200000} {
+		if *thorough || wi == 0 {
+			for _, ent := range []string{"FPAQ", "NONE"} {
+				cases = append(cases, xformCase{ID: id, T: "TEXT", Shape: "wordlist", Size: sz, Seed: *seed*1009 + int64(id), Hint: -1, Entropy: ent, Jobs: 1})
+				id++
+			}
 		}
 	}
 	// data-type hints left by earlier stages: every transform behind each stage that classifies the block, on the data classes
